@@ -1599,6 +1599,12 @@ func checkFiniSafeBeforeInit(c *Ctx, p *Prog, rule, tname string) {
 					switch st.Val.Type().Underlying().(type) {
 					case *types.Chan, *types.Interface:
 						made[ref.Name] = true
+					case *types.Pointer:
+						// an object Init makes (the escape timer): a method call on it or a use of one
+						// of its fields dereferences nil before Init
+						if _, isCall := st.Val.(*ssa.Call); isCall {
+							made[ref.Name] = true
+						}
 					}
 				}
 			}
@@ -1608,15 +1614,28 @@ func checkFiniSafeBeforeInit(c *Ctx, p *Prog, rule, tname string) {
 	for _, f := range closure(fini) {
 		eachInstr(f, func(in ssa.Instruction) {
 			cc := callCommon(in)
-			if cc == nil {
-				return
-			}
 			var subject ssa.Value
 			what := ""
-			if b, isB := cc.Value.(*ssa.Builtin); isB && b.Name() == "close" && len(cc.Args) == 1 {
+			if cc == nil {
+				// a field of the object (`t.keytimer.C`)
+				if fa, isFA := in.(*ssa.FieldAddr); isFA {
+					if _, isPtr := fa.X.Type().Underlying().(*types.Pointer); isPtr {
+						if r0, _, ok0 := loadedField(derefCell(fa.X)); ok0 && r0.Owner == owner {
+							subject, what = fa.X, "use of a field of"
+						}
+					}
+				}
+				if subject == nil {
+					return
+				}
+			} else if b, isB := cc.Value.(*ssa.Builtin); isB && b.Name() == "close" && len(cc.Args) == 1 {
 				subject, what = cc.Args[0], "close of"
 			} else if cc.IsInvoke() {
 				subject, what = cc.Value, "call of "+cc.Method.Name()+" on"
+			} else if h := cc.StaticCallee(); h != nil && h.Signature.Recv() != nil && len(cc.Args) > 0 {
+				if _, isPtr := cc.Args[0].Type().Underlying().(*types.Pointer); isPtr {
+					subject, what = cc.Args[0], "call of "+h.Name()+" on"
+				}
 			}
 			if subject == nil {
 				return
